@@ -71,13 +71,19 @@ class JaggedArray:
                         shapes.append((len(flattenedList),))
                         offset += len(flattenedList)
                         flattenedArray.extend(flattenedList)
-            elif isinstance(arr, (int, float)):
+            elif isinstance(arr, (int, float, np.number, np.bool_)):
                 offsets.append(offset)
                 shapes.append((1,))
                 offset += 1
                 flattenedArray.append(arr)
             elif arr is None:
                 nones.append(i)
+            else:
+                raise TypeError(
+                    "Cannot store a {} among the jagged data of {}".format(
+                        type(arr), paramName
+                    )
+                )
 
         self.flattenedArray = np.array(flattenedArray)
         self.offsets = np.array(offsets)
